@@ -110,7 +110,7 @@ def run(chk):
     skipped = 0
     try:
         # ---------------- AES
-        akeys = [[rng.randint(0, 255) for _ in range(n)] for n in ((16,) if q else (16, 24, 32, 16))]
+        akeys = [[rng.randint(0, 255) for _ in range(n)] for n in ((16, 24, 32) if q else (16, 24, 32, 16))]
         ark = spec_round_keys_aes(chk, akeys)
         N = 256
         mult = [2 * rng.randint(0, 127) + 1 for _ in range(16)]
@@ -123,6 +123,10 @@ def run(chk):
             cts = scared.aes.encrypt(np.array(pts, dtype='uint8'), np.array(key, dtype='uint8')).tolist()
             for fn, attacks in afns:
                 last = fn.startswith('Last') or fn.endswith('LastRounds')
+                if q and ki > 0:
+                    if fn not in ('LastSubBytes', 'FirstSubBytes'):
+                        continue
+                    attacks = ['CPA'] if fn == 'LastSubBytes' else ['SNR']
                 kwv = ark[ki]['last' if last else 'first']
                 words = sorted(rng.sample(range(16), 2))
                 guesses = sorted(set([kwv[w] for w in words]) | set(rng.sample(range(256), 30)))
